@@ -2,6 +2,7 @@ package main
 
 import (
 	"fmt"
+	"go/constant"
 	"go/token"
 	"go/types"
 	"regexp"
@@ -378,6 +379,16 @@ func ruleC17R2(w *World, r *Report) {
 				if (name == "Inspect" || name == "InspectMany") && len(c.Call.Args) == 2 {
 					cb = c.Call.Args[1]
 				}
+			}
+		}
+		if cb != nil {
+			if okP, whyP, decided := w.stopProtocol(outer); decided {
+				if okP {
+					r.ok(rule, construct, w.pos(outer.Pos()), "the callback handed to Inspect stops for good after yield's first false (followed by interpretation: "+whyP+")")
+				} else {
+					r.bad(rule, construct, w.pos(outer.Pos()), whyP)
+				}
+				continue
 			}
 		}
 		mc, isClosure := cb.(*ssa.MakeClosure)
@@ -931,4 +942,129 @@ func (w *World) canonicalHelpers(e string) string {
 		}
 	}
 	return e
+}
+
+// stopProtocol: the callback an iterator (Preorder) hands to Inspect is a small state machine over the boolean cells it
+// captures. It is followed by interpretation (CONCR) from the state the iterator sets up, for both answers of yield,
+// through every state it can reach: while yield has always answered true the callback calls yield exactly once and
+// returns true; from the first false answer on it never calls yield again and returns false. decided is false when
+// the interpreter cannot follow the code (the structural form of the rule is used then).
+func (w *World) stopProtocol(outer *ssa.Function) (ok bool, why string, decided bool) {
+	if len(outer.Params) != 1 {
+		return false, "", false
+	}
+	ci := w.newConcr()
+	ci.heap = true
+	var callback *cval
+	ci.intercept = func(callee *ssa.Function, args []cval) (cval, bool) {
+		name := callee.Name()
+		if callee.Origin() != nil {
+			name = callee.Origin().Name()
+		}
+		if (name == "Inspect" || name == "InspectMany") && len(args) == 2 {
+			cb := args[1]
+			callback = &cb
+			return cval{}, true
+		}
+		return cval{}, false
+	}
+	binds := make([]cval, len(outer.FreeVars))
+	out := ci.runB(outer, []cval{{kind: cOracle}}, binds, 0)
+	if out.status != "return" || callback == nil {
+		return false, "", false
+	}
+	if callback.kind == cOracle {
+		return false, "yield is handed to Inspect directly: Inspect prunes only the subtree when the callback returns false and goes on with the siblings, so yield is called again after it returned false (range-over-func panics)", true
+	}
+	if callback.kind != cClosure {
+		return false, "", false
+	}
+	// the cells the callback (and closures inside it) can see
+	var cells []*ccell
+	seenCell := map[*ccell]bool{}
+	var collect func(v cval)
+	collect = func(v cval) {
+		switch v.kind {
+		case cRef:
+			if !seenCell[v.cell] {
+				seenCell[v.cell] = true
+				cells = append(cells, v.cell)
+				collect(v.cell.v)
+			}
+		case cClosure:
+			for _, b := range v.binds {
+				collect(b)
+			}
+		}
+	}
+	collect(*callback)
+	snapshot := func() ([]cval, string, bool) {
+		var vs []cval
+		key := ""
+		for _, c := range cells {
+			if c.v.kind != cConst && c.v.kind != cOracle && c.v.kind != cClosure && c.v.kind != cNilPtr {
+				return nil, "", false
+			}
+			vs = append(vs, c.v)
+			key += c.v.String() + ";"
+		}
+		return vs, key, true
+	}
+	restore := func(vs []cval) {
+		for i, c := range cells {
+			c.v = vs[i]
+		}
+	}
+	type item struct {
+		vals    []cval
+		stopped bool
+	}
+	init, k0, okS := snapshot()
+	if !okS {
+		return false, "", false
+	}
+	seen := map[string]bool{k0 + "|false": true}
+	work := []item{{init, false}}
+	for len(work) > 0 && len(seen) < 64 {
+		it := work[0]
+		work = work[1:]
+		for _, answer := range []bool{true, false} {
+			restore(it.vals)
+			calls := 0
+			ci.oracle = func(args []cval) (cval, bool) {
+				calls++
+				return cval{kind: cConst, c: constant.MakeBool(answer)}, true
+			}
+			ci.steps = 0
+			res := ci.runB(callback.fn, []cval{{}}, callback.binds, 0)
+			if res.status != "return" || len(res.vals) != 1 || res.vals[0].kind != cConst || res.vals[0].c.Kind() != constant.Bool {
+				return false, "", false
+			}
+			ret := constant.BoolVal(res.vals[0].c)
+			switch {
+			case !it.stopped && calls != 1:
+				return false, fmt.Sprintf("before yield has returned false the callback calls it %d times for one node", calls), true
+			case !it.stopped && ret != answer:
+				return false, fmt.Sprintf("the callback returns %v when yield answered %v: the traversal goes on after the consumer stopped, or stops although it did not", ret, answer), true
+			case it.stopped && calls != 0:
+				return false, "yield is called again after it returned false (range-over-func panics)", true
+			case it.stopped && ret:
+				return false, "after yield returned false the callback still returns true: the traversal descends further", true
+			}
+			vs, k, okS := snapshot()
+			if !okS {
+				return false, "", false
+			}
+			next := item{vs, it.stopped || !answer}
+			key := fmt.Sprintf("%s|%v", k, next.stopped)
+			if !seen[key] {
+				seen[key] = true
+				work = append(work, next)
+			}
+			if it.stopped {
+				break // the answer does not matter once stopped
+			}
+		}
+	}
+	return true, fmt.Sprintf("%d state(s) of the captured flags explored for both answers of yield", len(seen)), true
 }
